@@ -13,6 +13,7 @@ import (
 	"net"
 	"net/netip"
 	"sync"
+	"sync/atomic"
 	"time"
 
 	"github.com/mdlayher/corerad/internal/config"
@@ -202,6 +203,21 @@ func (s *vState) setForwarding(iface string, v bool) {
 	s.forwarding[iface] = v
 }
 
+type vLinkKind struct {
+	mtu   int
+	flags net.Flags
+}
+
+var vLinkKinds = []vLinkKind{
+	{1500, net.FlagUp | net.FlagBroadcast | net.FlagMulticast | net.FlagRunning},
+	{1420, net.FlagUp | net.FlagPointToPoint | net.FlagMulticast | net.FlagRunning},
+	{9000, net.FlagUp | net.FlagBroadcast | net.FlagMulticast},
+	{1492, net.FlagUp | net.FlagPointToPoint | net.FlagRunning},
+	{0, 0},
+}
+
+var vLinkSeq atomic.Int64
+
 // vLogSink is where the daemon's log goes (a driver may install a sink that takes its time).
 var vLogSink io.Writer = io.Discard
 
@@ -216,6 +232,7 @@ type vAdvertiser struct {
 	conns []*vConn // one per (re)dial
 	term  bool
 	mu    sync.Mutex
+	link  vLinkKind
 }
 
 func newVAdvertiser(cfg config.Interface, terminate func() bool) *vAdvertiser {
@@ -241,9 +258,18 @@ func newVAdvertiserW(cfg config.Interface, terminate func() bool, watchC <-chan 
 			v.conn = c
 		}
 		v.conns = append(v.conns, c)
+		// what kind of link it is must not matter to anything the drivers check: Ethernet, a point-to-point tunnel
+		// with a small MTU, a jumbo-frame link -- chosen per advertiser, the same at every re-dial
+		k := vLinkKinds[int(vLinkSeq.Add(0))%len(vLinkKinds)]
+		if len(v.conns) == 1 {
+			k = vLinkKinds[int(vLinkSeq.Add(1))%len(vLinkKinds)]
+			v.link = k
+		} else {
+			k = v.link
+		}
 		return &system.DialContext{
 			Conn:      c,
-			Interface: &net.Interface{Name: cfg.Name, HardwareAddr: vMAC},
+			Interface: &net.Interface{Index: 7, Name: cfg.Name, HardwareAddr: vMAC, MTU: k.mtu, Flags: k.flags},
 			IP:        netip.MustParseAddr("fe80::1"),
 		}, nil
 	}
